@@ -925,6 +925,12 @@ func (x *Exec) index(st *State, e *ast.IndexExpr, b, i Term) Term {
 	if si != nil && si.Kind == "array" {
 		return tSelect(b, i, si.Elem)
 	}
+	if si != nil && si.Kind == "arrslice" {
+		inb := tAnd(tApp("Bool", "<=", tInt(0), i), tApp("Bool", "<", i, tApp("Int", "len_"+b.Sort, b)))
+		x.oblige(st, "safety", "index", inb, e, "index in range")
+		st.assume(inb)
+		return tSelect(tApp("(Array Int "+si.Elem+")", "arr_"+b.Sort, b), i, si.Elem)
+	}
 	x.unsupported(e, "index into sort %s", b.Sort)
 	return b
 }
@@ -943,6 +949,17 @@ func (x *Exec) storeIndex(st *State, fr *Frame, l *ast.IndexExpr, v Term) {
 	}
 	if si != nil && si.Kind == "array" {
 		nv := tStore(b, i, v)
+		nv.Ty = b.Ty
+		x.store(st, fr, l.X, nv)
+		return
+	}
+	if si != nil && si.Kind == "arrslice" {
+		x.sliceStoreCheck(st, fr, l)
+		inb := tAnd(tApp("Bool", "<=", tInt(0), i), tApp("Bool", "<", i, tApp("Int", "len_"+b.Sort, b)))
+		x.oblige(st, "safety", "index", inb, l, "index in range")
+		st.assume(inb)
+		arr := tApp("(Array Int "+si.Elem+")", "arr_"+b.Sort, b)
+		nv := mk(b.Sort, "(mk_%s %s %s)", b.Sort, tStore(arr, i, v).S, tApp("Int", "len_"+b.Sort, b).S)
 		nv.Ty = b.Ty
 		x.store(st, fr, l.X, nv)
 		return
